@@ -24,8 +24,8 @@ ASSUMPTIONS = [
 MIN_OBS = {"compared": 200, "elided_or_merged_Slice": 5, "elided_or_merged_Sort": 5, "elided_or_merged_Projection": 5, "elided_or_merged_Selection": 3}
 CFG = dict(
     engines=("it", "it2"),
-    ops=("calc", "proj", "sel", "dedup", "sort", "slice", "chain", "mat", "mark"),
-    weights={"slice": 1.6, "sort": 1.4, "proj": 1.2, "sel": 1.3, "mark": 0.4},
+    ops=("calc", "proj", "sel", "dedup", "sort", "slice", "chain", "mat", "mark", "cap", "rev"),
+    weights={"slice": 1.6, "sort": 1.4, "proj": 1.2, "sel": 1.3, "mark": 0.4, "cap": 0.4, "rev": 0.4},
     xfer_prob=0.06,
     total_sort_prob=0.35,
 )
